@@ -270,6 +270,7 @@ static int upipe_qsink_set_output(struct upipe *upipe, struct upipe *output)
 
     if (unlikely(upipe_qsink->output != NULL))
         upipe_release(upipe_qsink->output);
+    upipe_qsink->output = NULL;
     if (unlikely(output == NULL))
         return UBASE_ERR_NONE;
 
